@@ -247,13 +247,30 @@ def monitor_cases(scratch, base, trace_file, chk="Chk", name=None, timeout=1800)
     return j
 
 
-def conform(scratch, module, trace_files, kinds, consts_for, name, timeout=900, max_runs=None, corrupt=False):
+def conform(scratch, module, trace_files, kinds, consts_for, name, timeout=900, max_runs=None, corrupt=False,
+            trs=("inproc",)):
     """B-conf: validates recorded runs against an L1 model with silent internal
     steps. trace_files: NDJSON trace files; kinds: dict kind -> (ReqStreamC,
     RespStreamC). Returns dict(total, accepted, rejected=[run ids], states)."""
+    import concurrent.futures
+    with concurrent.futures.ThreadPoolExecutor(max_workers=max(1, len(kinds))) as ex:
+        parts = list(ex.map(lambda kv: _conform_kind(scratch, module, trace_files, kv[0], kv[1], consts_for, name,
+                                                     timeout, max_runs, corrupt, trs), kinds.items()))
+    out = dict(total=0, accepted=0, rejected=[], states=0, stuck={})
+    for p in parts:
+        out["total"] += p["total"]
+        out["accepted"] += p["accepted"]
+        out["rejected"] += p["rejected"]
+        out["states"] += p["states"]
+        out["stuck"].update(p["stuck"])
+    return out
+
+
+def _conform_kind(scratch, module, trace_files, kind, flags, consts_for, name, timeout, max_runs, corrupt, trs):
     total, accepted, rejected, states = 0, 0, [], 0
-    for kind, flags in kinds.items():
-        # collect the in-process stream runs of this kind
+    stuck = {}
+    if True:
+        # collect the stream runs of this kind on the transports of the model
         lines = []
         cur = None
         keep = False
@@ -261,7 +278,7 @@ def conform(scratch, module, trace_files, kinds, consts_for, name, timeout=900, 
             for line in open(tf):
                 j = json.loads(line)
                 if j["ev"] == "Begin":
-                    keep = j.get("tr") == "inproc" and j.get("kind") == kind
+                    keep = j.get("tr") in trs and j.get("kind") == kind
                 if keep:
                     lines.append(j)
         # a custom context type (the harness's deadline context) propagates to the
@@ -272,7 +289,7 @@ def conform(scratch, module, trace_files, kinds, consts_for, name, timeout=900, 
                {j["run"] for j in lines if j["ev"] == "Begin" and j.get("mode") == "free"}
         lines = [j for j in lines if j["run"] not in skip]
         if not lines:
-            continue
+            return dict(total=0, accepted=0, rejected=[], states=0, stuck={})
         if max_runs:
             seen, cut = set(), len(lines)
             for i, j in enumerate(lines):
@@ -294,7 +311,7 @@ def conform(scratch, module, trace_files, kinds, consts_for, name, timeout=900, 
                     changed.add(j["run"])
             lines = [j for j in lines if j["run"] in changed]
             if not lines:
-                continue
+                return dict(total=0, accepted=0, rejected=[], states=0, stuck={})
         n = len(lines)
         nb = n + 1
         for i in range(n - 1, -1, -1):
@@ -314,8 +331,27 @@ def conform(scratch, module, trace_files, kinds, consts_for, name, timeout=900, 
                     timeout=timeout, name="conf-%s-%s" % (name, kind), heap="8g")
         if not os.path.exists(out):
             raise Infra("B-conf run for %s failed:\n%s" % (kind, r["stdout"][-3000:]))
-        acc = set(json.load(open(out))["accepted"])
+        res = json.load(open(out))
+        acc = set(res["accepted"])
         accepted += len(acc)
         rejected += [x for x in runs if x not in acc]
         states += r["states"]
-    return dict(total=total, accepted=accepted, rejected=rejected, states=states)
+        # where the model got stuck on a rejected run: the first line it could not explain
+        reached = {int(a): int(b) for a, b in res.get("reached", [])}
+        for x in runs:
+            if x in acc:
+                continue
+            pos = reached.get(x, 0)     # 1-based index of the last explained event line
+            nxt = None
+            for i in range(pos, n):     # lines[pos] is the line after it
+                j = lines[i]
+                if j["run"] != x:
+                    if pos == 0:
+                        continue
+                    break
+                if j["ev"] not in ("Begin", "Quiesce", "Winddown", "Census", "HStart", "CNewStreamCall",
+                                   "CNewStreamRet", "Cancel", "HCtxWait", "HSetHeaderCall", "HSendHeaderCall"):
+                    nxt = {k: v for k, v in j.items() if k not in ("nb",)}
+                    break
+            stuck[x] = dict(kind=kind, line=nxt)
+    return dict(total=total, accepted=accepted, rejected=rejected, states=states, stuck=stuck)
